@@ -216,3 +216,32 @@ Proof.
   - destruct s as [|x s]; [discriminate|]. destruct (split_at n s) as [[a' t']|] eqn:E; [|discriminate].
     inversion H. subst. destruct (IH s a' t E) as (E1 & E2 & E3). subst. cbn. repeat split; congruence.
 Qed.
+
+(* ---- take_z / drop_z ---- *)
+Lemma take_z_app {A} (a b : list A) : take_z (a ++ b) (zlen a) = Some (a, b).
+Proof.
+  induction a as [|x a IH].
+  - cbn [app zlen length Z.of_nat]. destruct b; reflexivity.
+  - rewrite zlen_cons. cbn [app take_z]. pose proof (zlen_nonneg a).
+    destruct (1 + zlen a =? 0) eqn:C; [lia|]. replace (1 + zlen a - 1) with (zlen a) by lia. now rewrite IH.
+Qed.
+
+Lemma take_z_short {A} (s : list A) : forall n, zlen s < n -> take_z s n = None.
+Proof.
+  induction s as [|x s IH]; intros n H.
+  - cbn in H. cbn [take_z]. destruct (n =? 0) eqn:C; [lia|reflexivity].
+  - rewrite zlen_cons in H. pose proof (zlen_nonneg s). cbn [take_z]. destruct (n =? 0) eqn:C; [lia|].
+    rewrite IH by lia. reflexivity.
+Qed.
+
+Lemma drop_z_zdrop {A} (s : list A) : forall n, 0 <= n -> drop_z s n = zdrop n s.
+Proof.
+  induction s as [|x s IH]; intros n H.
+  - unfold zdrop. rewrite skipn_nil. cbn [drop_z]. destruct (n <=? 0); reflexivity.
+  - cbn [drop_z]. destruct (n <=? 0) eqn:C.
+    + assert (n = 0) by lia. subst. reflexivity.
+    + rewrite IH by lia. unfold zdrop. replace (Z.to_nat n) with (S (Z.to_nat (n - 1))) by lia. reflexivity.
+Qed.
+
+Lemma drop_z_app {A} (a b : list A) : drop_z (a ++ b) (zlen a) = b.
+Proof. rewrite drop_z_zdrop by apply zlen_nonneg. apply zdrop_app_exact. Qed.
